@@ -537,8 +537,30 @@ var loEngines = []loEngine{
 	{Name: "pipeline-3-7-8", Pipe: true, Chunk: 3, Buf: 7, Pro: 8},
 }
 
-// listObjects returns (sorted objects, error class: 0 none, 1 condition, 2 depth/complexity, 3 other, 4 timeout).
+// listObjects returns (sorted objects, error class: 0 none, 1 condition, 2 depth/complexity,
+// 3 other, 4 timeout, 5 the call did not return within the watchdog time).
 func listObjects(ctx context.Context, env *scen.Env, resolver graph.CheckResolver, e loEngine, typ, rel, user string, breadth uint32) ([]string, int) {
+	type result struct {
+		objs []string
+		ec   int
+	}
+	ch := make(chan result, 1)
+	go func() {
+		objs, ec := listObjects1(ctx, env, resolver, e, typ, rel, user, breadth)
+		ch <- result{objs, ec}
+	}()
+	select {
+	case r := <-ch:
+		return r.objs, r.ec
+	case <-time.After(loWatchdog):
+		return nil, 5 // the goroutine is abandoned
+	}
+}
+
+const loDeadline = 5 * time.Second
+const loWatchdog = 12 * time.Second
+
+func listObjects1(ctx context.Context, env *scen.Env, resolver graph.CheckResolver, e loEngine, typ, rel, user string, breadth uint32) ([]string, int) {
 	flags := []string{}
 	if e.Optimised {
 		flags = append(flags, serverconfig.ExperimentalListObjectsOptimizations)
@@ -547,7 +569,7 @@ func listObjects(ctx context.Context, env *scen.Env, resolver graph.CheckResolve
 		flags = append(flags, serverconfig.ExperimentalPipelineListObjects)
 	}
 	opts := []commands.ListObjectsQueryOption{
-		commands.WithListObjectsDeadline(30 * time.Second),
+		commands.WithListObjectsDeadline(loDeadline),
 		commands.WithListObjectsMaxResults(0),
 		commands.WithResolveNodeLimit(maxDepth),
 		commands.WithResolveNodeBreadthLimit(breadth),
@@ -561,6 +583,7 @@ func listObjects(ctx context.Context, env *scen.Env, resolver graph.CheckResolve
 	if err != nil {
 		panic(err)
 	}
+	t0 := time.Now()
 	res, err := q.Execute(typesystem.ContextWithTypesystem(ctx, env.TS), &openfgav1.ListObjectsRequest{
 		StoreId: env.StoreID, AuthorizationModelId: env.Model.GetId(), Type: typ, Relation: rel, User: user,
 		Context: scen.Struct(env.S.ReqCtx),
@@ -578,6 +601,9 @@ func listObjects(ctx context.Context, env *scen.Env, resolver graph.CheckResolve
 			return nil, 4
 		}
 		return nil, 3
+	}
+	if time.Since(t0) >= loDeadline {
+		return nil, 4 // the deadline cut the answer short: not a complete set
 	}
 	out := append([]string{}, res.Objects...)
 	sort.Strings(out)
@@ -640,6 +666,9 @@ func runLO(ctx context.Context, w *rec.Writer, r *rec.Rand, g *rig, s *scen.Scen
 					distinct[fmt.Sprint(objs, ec)] = true
 					if ec != 0 {
 						w.Stat(fmt.Sprintf("lo_error_class_%d", ec), 1)
+						if os.Getenv("C02_VERBOSE") != "" {
+							fmt.Fprintf(os.Stderr, "LO class %d: %s %s#%s@%s\n%s\n", ec, e.Name, td.Name, rd.Name, sub, s.String())
+						}
 					}
 					evs = append(evs, rec.L(rec.I(ei), rec.I(ec), rec.L(ovs...)))
 					w.Stat("lo_objects_returned", len(objs))
